@@ -1,4 +1,4 @@
-Require Import Verif.CV.CVModel.
+Require Import Verif.CV.CVModel Verif.CV.CVObjModel.
 Require Extraction ExtrOcamlBasic.
 Extraction Language OCaml.
-Extraction "cv_model.ml" init step all_done outcome destroy clock threads stale uaf tables bctor bdtor.
+Extraction "cv_model.ml" init step all_done outcome destroy clock threads stale uaf tables bctor bdtor oinit orun oview.
